@@ -637,6 +637,22 @@ def float_leg(chunk, replay=None):
                     failures.append(dict(clause="float.disc_of_every_movable_module_inside_the_die", module=nm, centre=[cx, cy], radius=r, **info))
             if [([m.name for m in e.modules], e.weight) for e in sn.edges] != nets_before:
                 failures.append(dict(clause="float.nets_unchanged", **info))
+            if mode != 0 and it % 3 == 0:
+                # composition: a second placement on the same object (hard modules have lost their centre, movable ones have one now)
+                fixed_now = [(m.name, [(r.center.x, r.center.y, r.shape.w, r.shape.h) for r in m.rectangles]) for m in sn.modules if m.is_fixed]
+                try:
+                    random.seed(seed + 7)
+                    sn.spectral_layout(Shape(W, H), 1, False)
+                    for m in sn.modules:
+                        if m.is_fixed or (m.is_hard and not m.is_terminal):
+                            continue
+                        r = _radius(m)
+                        if m.center is None or not (r - tol <= m.center.x <= W - r + tol and r - tol <= m.center.y <= H - r + tol):
+                            failures.append(dict(clause="float.disc_of_every_movable_module_inside_the_die", module=m.name, second_placement=True, **info))
+                    if fixed_now != [(m.name, [(r.center.x, r.center.y, r.shape.w, r.shape.h) for r in m.rectangles]) for m in sn.modules if m.is_fixed]:
+                        failures.append(dict(clause="float.fixed_module_rectangles_not_moved", second_placement=True, **info))
+                except Exception as e:  # noqa
+                    failures.append(dict(clause="float.never_fails", observed=f"second placement: {type(e).__name__}: {e}", **info))
             if not samples:
                 samples.append(dict(W=W, H=H, kinds=kinds, mode=mode, seed=seed, doc=doc))
         if len(failures) >= 6 or replay:
